@@ -50,7 +50,7 @@ def param_vectors(kind, r, S, k=1, legal_only=True):
             out.append((r.choice([0, 10, 25, 100]), r.choice(cuts), r.choice([1, 2, 3, 4, 8])))
         elif kind == "FMINDEX":
             sparse = r.choice([0, 1])
-            bp = r.choice([1, 2, 4, 20, 40]) if not sparse else r.choice([1, 8, 16, 32, 128])
+            bp = r.choice([1, 2, 3, 4, 20, 40]) if not sparse else r.choice([1, 3, 5, 7, 8, 16, 32, 128])
             samp = r.choice([0, 1, 2, 3, 4, 8, 16, 64, textlen + 5])
             out.append((sparse, bp, samp))
         else:
@@ -80,6 +80,35 @@ def boundary_sweep(prop, seed, tier, ops, kinds=FC, states=("own", "fresh"), nma
                 S = WORDS[:n] if r.random() < 0.5 else sorted(r.sample(WORDS, n))
                 p = (b,) if kind in FC else param_vectors(kind, r, S, 1)[0]
                 out.append(Case(kind, p, "words%d" % n, S, states[(n + b) % len(states)], opt_for(kind, r), ops, big=False, seed=gen.splitmix(seed, n, b)))
+    return out
+
+def numeral_sweep(prop, seed, tier, ops, kinds=("HTFC", "HHTFC", "RPHTFC"), states=("own", "fresh")):
+    """numerals 0..n-1 for every n in a range: the byte-frequency vector changes shape with n (ties between equal weights in the code construction)"""
+    out = []
+    hi = 150 if tier == "quick" else 1200
+    for kind in kinds:
+        for n in range(12, hi):
+            S = sorted(b"%d" % i for i in range(n))
+            b = [16, 8, 4, 64][n % 4]
+            out.append(Case(kind, (b,), "numerals0_%d" % n, S, states[n % len(states)], 1, ops, big=False, seed=gen.splitmix(seed, n, 5)))
+    return out
+
+def hash_sweep(prop, seed, tier, ops, kinds=("HASHHF", "HASHRPF", "HASHUFFDAC", "HASHRPDAC"), overheads=(0, 5, 10, 50), states=("own", "fresh")):
+    """every dictionary size 1..nmax x several overheads: the hash table size (a prime near n*(1+overhead)) takes every small value"""
+    out = []
+    nmax = 48 if tier == "quick" else len(WORDS)
+    for kind in kinds:
+        for n in range(1, nmax + 1):
+            S = WORDS[:n]
+            for ov in overheads:
+                out.append(Case(kind, (ov,), "words%d" % n, S, states[(n + ov) % len(states)], 1, ops, big=False, seed=gen.splitmix(seed, n, 3), extra=("--qbs", "4")))
+            # full tables (overhead 0): probe sequences must visit every cell whatever the keys are -> several key sets per size
+            for v in range(4 if tier == "quick" else 16):
+                r = rng_for(seed, prop, 800000 + KINDS.index(kind) * 1000 + n * 17 + v)
+                fam = [gen.FAMILIES["urls"], gen.FAMILIES["uniform26"], gen.FAMILIES["numerals"], gen.FAMILIES["words"]][v % 4]
+                S2 = fam(r, n)[:n]
+                if len(S2) == n:
+                    out.append(Case(kind, (0,), "full%d.%d" % (n, v), S2, states[(n + v) % len(states)], 1, ops, big=False, seed=gen.splitmix(seed, n, 4), extra=("--qbs", "4")))
     return out
 
 def basic_cases(prop, seed, tier, ops, kinds=KINDS, states=("fresh", "own", "gen", "resaved"), per_input_states=2, filt=None, n_random=None, families=None, pv=1, big=None, kind_params=None, max_n=None, extra_inputs=(), corner=True):
